@@ -503,6 +503,37 @@ func c19(r *rt.Run) {
 			r.Violate("panic-read", fmt.Sprintf("%v at %s", pv, rt.ShortStack(st)), map[string]any{"file": file})
 		}
 	}
+	// (v) wide predicates: every arity at the edges of the documented limit (at most 2^10 arguments); what the writer
+	// accepts, every reader must accept, and the predicate stored after the wide one must survive too
+	for _, ar := range []int{3, 64, 255, 256, 1023, 1024, 1025} {
+		mkWide := func(base int64) ast.Atom {
+			args := make([]ast.BaseTerm, ar)
+			for j := range args {
+				args[j] = ast.Number(base + int64(j%7))
+			}
+			return ast.Atom{Predicate: ast.PredicateSym{Symbol: "wide", Arity: ar}, Args: args}
+		}
+		for nf := 1; nf <= 2; nf++ {
+			facts := []ast.Atom{mkWide(0)}
+			if nf == 2 {
+				facts = append(facts, mkWide(100))
+			}
+			facts = append(facts, ast.NewAtom("zafter", ast.Number(1)), ast.NewAtom("after", ast.Number(2)))
+			src := factstore.NewMultiIndexedArrayInMemoryStore()
+			for _, a := range facts {
+				src.Add(a)
+			}
+			for _, f := range formats {
+				for _, det := range []bool{true, false} {
+					if _, werr := c19Write(src, f, det); werr != nil && ar > 1024 {
+						r.Add("writes_refused_above_documented_arity_limit", 1)
+						continue // refused by the writer: nothing was written, nothing to read back
+					}
+					c19Case(r, facts, src, "multiarray", f, det, fmt.Sprintf("wide-predicate-arity-%d", ar), false)
+				}
+			}
+		}
+	}
 	// (iv) determinism: same set, every insertion order, every source store kind
 	one := ast.Number(1)
 	factSets := [][]ast.Atom{
@@ -558,5 +589,5 @@ func c19(r *rt.Run) {
 	r.Sample(map[string]any{"layout": "z/0 p/1 q/2 with 1,2,0 facts", "formats": formats})
 	r.Finish("(i) stores {p(c)} and {q(c,c'),q(c',c)} for every constant of the printable universe (all single-byte strings and bytes, names over every permitted character incl. %, boundary numbers/times/durations, floats, ~1700-5000 structured values); " +
 		"(ii) every ordered layout of 1-3 (thorough 4) predicates from z/0,y/0,p/1,q/2,r/3,p/2 (same symbol as p/1),e/1(empty but listed) with 0-2 facts each; formats plain/gzip/zstd, deterministic on/off; read back eagerly into 3 store kinds and lazily with every pattern query; " +
-		"(iii) hand-written headers listing empty zero-arity predicates; (iv) every insertion order of 3 fact sets into 4 store kinds written deterministically (byte equality)")
+		"(iii) hand-written headers listing empty zero-arity predicates; (iv) every insertion order of 3 fact sets into 4 store kinds written deterministically (byte equality); (v) wide predicates of arity 3, 64, 255, 256, 1023, 1024 (the documented limit) and 1025 (must be refused by the writer or round-trip) with 1-2 facts followed by two more predicates, all formats, deterministic on/off")
 }
